@@ -96,9 +96,11 @@ M_MAPERR = re.compile(r"core::result::Result::map_err")
 
 
 class LockTS:
-    def __init__(self, prog, body, tracked_locals, entry_state=None, preconds=None, single_object=False):
+    def __init__(self, prog, body, tracked_locals, entry_state=None, preconds=None, single_object=False, exclude=()):
         """tracked_locals: locals that *are* the lock (type Lock) or a `&mut Lock` to the one
-        tracked object. entry_state: state at bb0 (for objects that exist on entry)."""
+        tracked object. entry_state: state at bb0 (for objects that exist on entry).
+        exclude (single_object mode): lock locals that are objects of their own (created and dropped in this
+        body, never stored in the container); they and the references to them are not the tracked object."""
         self.prog = prog
         self.b = body
         self.ba = BA.of(body)
@@ -106,8 +108,11 @@ class LockTS:
         self.single_object = single_object
         if single_object:
             # every Lock-typed value or reference in this body denotes the one tracked object
+            ex = set(exclude)
             for i, ty in enumerate(body.locals):
                 if ty in (LOCK, "&mut " + LOCK, "&" + LOCK):
+                    if i in ex or (ex and any(x in ex for x in self.ba.ref_chain(i))):
+                        continue
                     self.tracked.add(i)
         self.entry_state = entry_state
         self.pre = preconds if preconds is not None else derive_preconditions(prog)
